@@ -162,7 +162,10 @@ impl<'p, 'a> Evaluator<'a, 'p> {
             }
         }
 
-        this.run()?;
+        if let Err(e) = this.run() {
+            this.restore_interrupted_thunks();
+            return Err(e);
+        }
 
         let output = match output_kind {
             OutputKind::Value => EvalOutput::Value(this.value_stack.pop().unwrap()),
@@ -181,6 +184,16 @@ impl<'p, 'a> Evaluator<'a, 'p> {
         assert!(this.byte_array_stack.is_empty());
 
         Ok(output)
+    }
+
+    /// Puts the thunks that were being evaluated when an error occurred
+    /// back to their pending state, so they can be evaluated again later.
+    fn restore_interrupted_thunks(&mut self) {
+        for state in self.state_stack.drain(..) {
+            if let State::GotThunk(thunk, pending) = state {
+                thunk.restore_pending(pending);
+            }
+        }
     }
 
     fn run(&mut self) -> EvalResult<()> {
@@ -204,7 +217,8 @@ impl<'p, 'a> Evaluator<'a, 'p> {
                         self.value_stack.push(value);
                     }
                     ThunkState::Pending(pending) => {
-                        self.state_stack.push(State::GotThunk(thunk));
+                        self.state_stack
+                            .push(State::GotThunk(thunk, pending.clone()));
                         match pending {
                             PendingThunk::Expr { expr, env } => {
                                 self.state_stack.push(State::Expr {
@@ -245,7 +259,7 @@ impl<'p, 'a> Evaluator<'a, 'p> {
                         return Err(self.report_error(EvalErrorKind::InfiniteRecursion));
                     }
                 },
-                State::GotThunk(thunk) => {
+                State::GotThunk(thunk, _) => {
                     let value = self.value_stack.last().unwrap();
                     thunk.set_done(value.clone());
                 }
